@@ -24,6 +24,7 @@ type Arrival struct {
 	LogN    int
 	Path    string // poll | reobserve
 	ReobsN  int    // re-observation requests issued so far for this tx
+	AtMs    int64  // wall clock when the harness received it (never earlier than the watcher's decision)
 }
 
 type Harness struct {
@@ -71,7 +72,7 @@ func Start(sim *Sim, coreIdHex string, tb [32]byte, mainnet bool, pollMs uint) (
 				if reobs {
 					path = "reobserve"
 				}
-				h.Arrivals = append(h.Arrivals, Arrival{Msg: m, Version: v, LogN: n, Path: path, ReobsN: h.reobsTx[hex.EncodeToString(m.TxHash[:])]})
+				h.Arrivals = append(h.Arrivals, Arrival{Msg: m, Version: v, LogN: n, Path: path, ReobsN: h.reobsTx[hex.EncodeToString(m.TxHash[:])], AtMs: time.Now().UnixMilli()})
 				h.mu.Unlock()
 			}
 		}
@@ -226,8 +227,13 @@ type Finding struct {
 	Witness map[string]interface{}
 }
 
-// TimeFloorOK: static by construction (block timestamps are placed far from the threshold).
-func (h *Harness) TimeFloorOK(e *Ev) bool {
+// TimeFloorOK: static by construction where block timestamps are placed far from the threshold.
+func (h *Harness) TimeFloorOK(e *Ev) bool { return h.TimeFloorOKAt(e, h.NowMs) }
+
+// TimeFloorOKAt judges the wall-clock floor against the moment the message was received by the harness. The watcher
+// decided no later than that, so a message decided after the floor always passes; one decided before the floor is
+// caught unless the hand-over itself took longer than what was missing (blocks are placed >= 2 s before their floor).
+func (h *Harness) TimeFloorOKAt(e *Ev, atMs int64) bool {
 	if !h.Mainnet || len(e.Intent.Payload) == 0 || e.Intent.Payload[0] != 1 {
 		return true
 	}
@@ -235,11 +241,14 @@ func (h *Harness) TimeFloorOK(e *Ev) bool {
 	if cl < 205 {
 		cl = 205
 	}
-	return e.Block.TsMs+cl*16000 <= h.NowMs
+	return e.Block.TsMs+cl*16000 <= atMs
 }
 
 // AttestOK: the attested metadata equals what the token contract reports.
-func (h *Harness) AttestOK(e *Ev) bool {
+func (h *Harness) AttestOK(e *Ev) bool { return h.AttestOKAt(e, 1<<30) }
+
+// AttestOKAt: the same against the token contract as it was in state version v.
+func (h *Harness) AttestOKAt(e *Ev, v int) bool {
 	p := e.Intent.Payload
 	if len(p) == 0 || p[0] != 2 {
 		return true
@@ -249,7 +258,7 @@ func (h *Harness) AttestOK(e *Ev) bool {
 	}
 	id := hex.EncodeToString(p[1:33])
 	var t *Token
-	h.Sim.WithLock(func() { t = h.Sim.Tokens[id] })
+	h.Sim.WithLock(func() { t = h.Sim.TokenAt(id, v) })
 	if id == hex.EncodeToString(make([]byte, 32)) {
 		return int(p[35]) == 18 && trimZ(p[36:68]) == "ALPH" && trimZ(p[68:100]) == "Alephium" && p[33] == 0 && p[34] == 255
 	}
@@ -294,9 +303,9 @@ func (h *Harness) JudgeSafety(desc interface{}) []Finding {
 				f = "orphaned-block-event-forwarded"
 			case height < e.Block.Height+int32(e.Intent.CL):
 				f = "forwarded-before-consistency-level-reached"
-			case !h.AttestOK(e):
+			case !h.AttestOKAt(e, v):
 				f = "mismatching-attestation-forwarded"
-			case !h.TimeFloorOK(e):
+			case !h.TimeFloorOKAt(e, maxI64(a.AtMs, h.NowMs)):
 				f = "mainnet-transfer-forwarded-before-time-floor"
 			}
 			if f == "" {
@@ -328,4 +337,11 @@ func short(s string) string {
 		return s[:4] + ".." + s[len(s)-4:]
 	}
 	return s
+}
+
+func maxI64(a, b int64) int64 {
+	if a > b {
+		return a
+	}
+	return b
 }
